@@ -867,6 +867,7 @@ func TestKeysEndToEnd(t *testing.T) {
 		}
 		return
 	}
+	var ld *bngebpf.Loader
 	for i := 0; i < n; i++ {
 		for _, m := range k.Coll.Maps {
 			if m.Type() == ebpf.Hash {
@@ -882,9 +883,49 @@ func TestKeysEndToEnd(t *testing.T) {
 				}
 			}
 		}
-		ld, _ := bngebpf.NewLoader("lo", zap.NewNop())
-		ld.VerifSetMaps(k.Coll.Maps)
+		// one long-lived loader, as in the running gateway: whatever it did for earlier subscribers (keys of other
+		// lengths, other tags, other hardware addresses, added, looked up and removed again) must not leak into
+		// the key it derives now. Every eighth entry is written by a fresh loader (first-call behaviour).
+		if ld == nil || i%8 == 7 {
+			ld, _ = bngebpf.NewLoader("lo", zap.NewNop())
+			ld.VerifSetMaps(k.Coll.Maps)
+		}
 		pa := &bngebpf.PoolAssignment{PoolID: 1, AllocatedIP: bngebpf.IPToMapUint32(net.IPv4(10, 20, 30, 40)), LeaseExpiry: ^uint64(0) >> 1}
+		for h := rng.IntN(3); h > 0; h-- {
+			// history on the same loader: an unrelated subscriber comes and goes
+			ocid := make([]byte, 1+rng.IntN(40))
+			for j := range ocid {
+				ocid[j] = byte(1 + rng.IntN(255))
+			}
+			ost, oct := uint16(1+rng.IntN(4094)), uint16(1+rng.IntN(4094))
+			omac := uint64(rng.Uint32())<<16 | uint64(rng.IntN(65536))
+			switch rng.IntN(3) {
+			case 0:
+				ld.AddCircuitIDSubscriber(ocid, pa)
+				ld.GetCircuitIDSubscriber(ocid)
+				ld.RemoveCircuitIDSubscriber(ocid)
+			case 1:
+				ld.AddVLANSubscriber(ost, oct, pa)
+				ld.GetVLANSubscriber(ost, oct)
+				ld.RemoveVLANSubscriber(ost, oct)
+			default:
+				ld.AddSubscriber(omac, pa)
+				ld.GetSubscriber(omac)
+				ld.RemoveSubscriber(omac)
+			}
+			run.Count("e2e_history_calls_before_the_judged_entry", 1)
+		}
+		for name, m := range k.Coll.Maps {
+			if m.Type() != ebpf.Hash || (name != "subscriber_pools" && name != "vlan_subscriber_pools" && name != "circuit_id_subscribers") {
+				continue
+			}
+			kb := make([]byte, m.KeySize())
+			vb := make([]byte, m.ValueSize())
+			if it := m.Iterate(); it.Next(&kb, &vb) {
+				run.Violation("ebpf.Loader", "removed-entry-is-gone", "entry-left-after-add-and-remove/history", fmt.Sprintf("after adding and removing unrelated subscribers through the loader, %s still holds key %x", name, kb), nil)
+				return
+			}
+		}
 		mac := net.HardwareAddr{0x02, byte(rng.IntN(256)), byte(rng.IntN(256)), byte(rng.IntN(256)), byte(rng.IntN(256)), byte(rng.IntN(256))}
 		stranger := make([]byte, 16)
 		copy(stranger, net.HardwareAddr{0x06, 9, 9, byte(rng.IntN(256)), byte(rng.IntN(256)), byte(i)})
@@ -944,6 +985,34 @@ func TestKeysEndToEnd(t *testing.T) {
 		run.Nontrivial(fmt.Sprintf("e2e|%s|%d", cls, i))
 		if !found {
 			run.Violation("ebpf.Loader", "written-entry-is-found-by-the-program", "entry-written-by-control-plane-not-found/"+cls, fmt.Sprintf("%s wrote key(s) %v into %s; the program, on the frame of that subscriber, looks up %x and finds nothing", api, written, mapName, key), fmt.Sprintf("%x", frame))
+		}
+		// the control plane reads the entry back and removes it under the key it derives for the same identity
+		var gerr, rerr error
+		switch i % 3 {
+		case 0:
+			_, gerr = ld.GetVLANSubscriber(st, ct)
+			rerr = ld.RemoveVLANSubscriber(st, ct)
+		case 1:
+			_, gerr = ld.GetCircuitIDSubscriber(cid)
+			rerr = ld.RemoveCircuitIDSubscriber(cid)
+		default:
+			_, gerr = ld.GetSubscriber(bngebpf.MACToUint64(mac))
+			rerr = ld.RemoveSubscriber(bngebpf.MACToUint64(mac))
+		}
+		if gerr != nil && found {
+			run.Violation("ebpf.Loader", "written-entry-is-read-back", "get-misses-entry-the-program-finds/"+cls, fmt.Sprintf("%s: the program finds the entry, the loader's Get for the same identity fails: %v", api, gerr), nil)
+		}
+		left := 0
+		if m := k.Coll.Maps[mapName]; m != nil {
+			kb := make([]byte, m.KeySize())
+			vb := make([]byte, m.ValueSize())
+			for it := m.Iterate(); it.Next(&kb, &vb); {
+				left++
+			}
+		}
+		run.Count("e2e_removals_judged_"+cls, 1)
+		if left != 0 {
+			run.Violation("ebpf.Loader", "removed-entry-is-gone", "entry-left-after-remove/"+cls, fmt.Sprintf("%s then the matching Remove (err=%v): %s still holds %d entr(y/ies), written keys were %v", api, rerr, mapName, left, written), nil)
 		}
 	}
 	run.Floor("e2e_keys_judged_vlan-pair", 20)
